@@ -23,7 +23,7 @@ Theorem C06_entries : forall msgs vs w es ers ds drs vs1,
     (forall a, In a added -> contains_value vs (value a) = false) /\
     NoDup (map value added) /\
     Permutation (integrate msgs vs w es ers ds drs)
-                (vs ++ added ++ match vs ++ added with [_] => [filler (strip_err w) ds drs] | _ => [] end).
+                (vs ++ added ++ match vs ++ added with [_] => [filler w ds drs] | _ => [] end).
 Proof. exact integrate_spec. Qed.
 Print Assumptions C06_entries.
 
